@@ -230,8 +230,14 @@ func runDiscCase(r *Run, w *hWorld, dc *discCase, tag string) {
 	var cached *discDoc
 	for _, a := range dc.Answers {
 		a := a
+		wasCached := cached != nil
 		out := w.resolve(r, oc, a, false)
 		dc.Outcomes = append(dc.Outcomes, out)
+		if !dc.NoURI && !wasCached && a.Kind == "doc" && strings.HasPrefix(out, "err:fetch") {
+			r.Violate(tag+" the discovery endpoint answers with a proper document but the handler cannot be built: an earlier failure of the endpoint is held against it",
+				map[string]any{"case": dc})
+			return
+		}
 		r.Dist["disc:"+strings.SplitN(out, " ", 2)[0]]++
 		// the document the code must be working with: the cached one, else this answer if it is a document
 		doc := cached
